@@ -743,3 +743,6 @@ func writeEvidence(c Check, m *Merged, tier string, seed int64, wall float64, nv
 	os.MkdirAll(filepath.Join(Root, "evidence"), 0o755)
 	os.WriteFile(filepath.Join(Root, "evidence", c.ID()+".json"), b, 0o644)
 }
+
+// NewRecForTest creates a record for unit tests of checks.
+func NewRecForTest(id string) *Rec { return newRec(id) }
